@@ -28,13 +28,21 @@ func NewIOWriter(writer io.Writer) func(ro.Observable[[]byte]) ro.Observable[int
 	return func(source ro.Observable[[]byte]) ro.Observable[int] {
 		return ro.NewUnsafeObservableWithContext(func(subscriberCtx context.Context, destination ro.Observer[int]) ro.Teardown {
 			count := 0
+			failed := false
 
 			sub := source.SubscribeWithContext(
 				subscriberCtx,
 				ro.NewObserverWithContext(
 					func(ctx context.Context, value []byte) {
+						if failed {
+							// The error has been reported: a source that cannot be stopped at once
+							// (a synchronous one) must not write past the failure.
+							return
+						}
+
 						n, err := writer.Write(value)
 						if err != nil {
+							failed = true
 							destination.NextWithContext(ctx, count)
 							destination.ErrorWithContext(ctx, err)
 						} else {
@@ -63,13 +71,19 @@ func NewStdWriter() func(ro.Observable[[]byte]) ro.Observable[int] {
 	return func(source ro.Observable[[]byte]) ro.Observable[int] {
 		return ro.NewUnsafeObservableWithContext(func(subscriberCtx context.Context, destination ro.Observer[int]) ro.Teardown {
 			count := 0
+			failed := false
 
 			sub := source.SubscribeWithContext(
 				subscriberCtx,
 				ro.NewObserverWithContext(
 					func(ctx context.Context, value []byte) {
+						if failed {
+							return
+						}
+
 						n, err := os.Stdout.Write(value)
 						if err != nil {
+							failed = true
 							destination.NextWithContext(ctx, count)
 							_, _ = os.Stderr.Write([]byte(err.Error()))
 							destination.ErrorWithContext(ctx, err)
